@@ -99,19 +99,11 @@ def run_case(ctx, i, rng):
         if missing:
             n, p = missing[0]
             kind = classify_missing(case, n, p)
-            late = ((res.get('monitors') or {}).get('ledger') or {}).get(
-                'messages_after_task_left_pool') or []
-            if late and kind == 'parented':
-                from vlib.e1.c20 import child_of_late
-                hit = [q for m, q in missing
-                       if child_of_late(gt, f'{q}/{m}/01', late)]
-                rest = [q for m, q in missing
-                        if not child_of_late(gt, f'{q}/{m}/01', late)
-                        and classify_missing(case, m, q) == 'parented']
-                # (an instance stuck behind a late message holds the
-                # runahead base: later points cannot run either)
-                if hit and (not rest or min(rest) > min(hit)):
-                    kind = 'output-message-after-final-message'
+            from vlib.e1.c43 import explain_missing
+            root = explain_missing(case, {f'{q}/{m}' for m, q in missing},
+                                   [res])
+            if root:
+                kind = root
             ctx.violation(
                 f'C01:closure-missing:{kind}',
                 f'instances in the graph closure never ran: '
